@@ -743,6 +743,7 @@ func main() {
 		run.Violation(evid.Sig{Symptom: v.v.sym, Trigger: t}, v.v.what, map[string]string{"class": v.class, "input": v.input, "input_quoted": strconv.Quote(v.input), "what": v.v.what})
 	}
 	cliSample(run)
+	os.RemoveAll(sbxTmp) // Finish exits the process: deferred calls do not run
 	run.Finish()
 	_ = os.Stdout
 }
